@@ -71,7 +71,20 @@ func c14Pool(r *rand.Rand, n int) []c14Payload {
 		}
 		out = append(out, p)
 	}
-	return out
+	// a combination the format does not have: an ALPH chunk in front of a *lossless* bitstream. The muxer may refuse
+	// it; if it writes a file, both readers of the package must still read it alike.
+	var extra []c14Payload
+	for _, p := range out {
+		if p.Kind == "vp8l" && len(extra) < max(2, n/20) {
+			a := []byte{0, byte(r.Intn(256)), byte(r.Intn(256))}
+			pre := make([]byte, 8, 8+len(a)+1+len(p.Bitstream))
+			copy(pre, "ALPH")
+			binary.LittleEndian.PutUint32(pre[4:], uint32(len(a)))
+			pre = append(append(pre, a...), 0)
+			extra = append(extra, c14Payload{W: p.W, H: p.H, Kind: "alph+vp8l", Bitstream: p.Bitstream, Alpha: a, Prefixed: append(pre, p.Bitstream...)})
+		}
+	}
+	return append(out, extra...)
 }
 
 type c14Frame struct {
@@ -120,6 +133,30 @@ func runC14(c *ev.Ctx) {
 // cannot return an error): whatever Assemble writes must demux back; refusing is fine, a file the demuxer refuses is not.
 func c14Cap(c *ev.Ctx, idx int, pool []c14Payload) {
 	const lim = 100 * 1024 * 1024
+	{ // three blobs within the per-chunk limit whose sum exceeds the 256 MiB that Decode/GetFeatures/animation.Decode read
+		cs := ev.Case{Idx: idx + 2, Desc: "SetICCProfile/SetEXIF/SetXMP(90 MiB each) + AddFrame + Assemble"}
+		mk := func(seed byte) []byte {
+			b := make([]byte, 90<<20)
+			for i := 0; i < len(b); i += 4093 {
+				b[i] = seed + byte(i>>9)
+			}
+			return b
+		}
+		m := mux.NewMuxer()
+		m.SetICCProfile(mk(1))
+		m.SetEXIF(mk(2))
+		m.SetXMP(mk(3))
+		m.AddFrame(pool[0].Prefixed, nil)
+		var buf bytes.Buffer
+		err := m.Assemble(&buf)
+		c.Eval(1)
+		c.Distinct("cap|sum")
+		if err == nil {
+			if _, ferr := webp.GetFeatures(bytes.NewReader(buf.Bytes())); ferr != nil {
+				c.Violate(cs, "parser-rejects-muxer-output", map[string]string{"cap": "sum"}, fmt.Sprintf("Assemble wrote %d bytes that GetFeatures refuses: %v", buf.Len(), ferr), nil)
+			}
+		}
+	}
 	for k, n := range []int{lim, lim + 1} {
 		cs := ev.Case{Idx: idx + k, Desc: fmt.Sprintf("SetEXIF(%d bytes) + AddFrame + Assemble", n)}
 		blob := make([]byte, n)
@@ -415,6 +452,11 @@ func c14One(c *ev.Ctx, cs ev.Case, pool []c14Payload, lwOK bool) {
 	// Canvases of 2^30 pixels and more: the package's own readers put their limits in different places, so the muxer
 	// may refuse them; if it writes a file, every view of that file must still agree (checked below as usual).
 	mayReject := uint64(wantW)*uint64(wantH) >= 1<<30
+	for _, f := range h.Frames {
+		if f.P.Kind == "alph+vp8l" {
+			mayReject = true
+		}
+	}
 	cs.Desc = fmt.Sprintf("%v", h.Ops)
 	// D11 (known finding): a non-animated output whose canvas (explicit, or implied by a frame offset)
 	// differs from the image size. Only its direct consequences carry this tag.
